@@ -41,7 +41,7 @@ BINDERS = {
     "Global": ({"names"}, False),
     "Delete": ({"targets"}, True),
 }
-CTX_MUTATORS = {"ctxadd", "ctxupdate", "ctxremove", "update", "add"}
+CTX_MUTATORS = {"ctxadd", "ctxupdate", "ctxremove", "update", "add", "remove", "discard", "difference_update"}
 
 
 def _resolve_visitor(cls, name):
@@ -77,6 +77,12 @@ def check(ctx):
             continue  # construct does not exist on the running interpreter
         fn, real = _resolve_visitor(cls, f"visit_{construct}")
         st = f"{AS}:CtxAwareTransformer.visit_{construct}"
+        if fn is None and construct in ("Try", "TryStar"):
+            # the clause may register its own name: `except E as n` handled where the handler is visited
+            fn, real = _resolve_visitor(cls, "visit_ExceptHandler")
+            if fn is not None:
+                fields = {"name"}
+                st = f"{AS}:CtxAwareTransformer.visit_ExceptHandler"
         if not ctx.ob("R1", st, f"a binder visitor for {construct} exists (names bound by it must keep later lines Python)", fn is not None, key=f"missing-visitor|{construct}", where=loc(cls)):
             continue
         # names registered: arguments of the context mutators, traced back through local
@@ -106,6 +112,11 @@ def check(ctx):
             for a in c.args:
                 absorb(a)
         ctx.ob("R1", st, f"registers names with the context ({len(muts)} context update(s))", bool(muts), key=f"no-ctx-update|{construct}", where=loc(fn))
+        if construct != "Delete":
+            # a binding construct never makes a name *less* bound for the lines that follow: whether the clause/body runs is
+            # not known when the later line is classified, and an earlier binding of the same name would be erased with it
+            rem = [c for c in muts if last_attr(c) in ("ctxremove", "remove", "discard", "pop", "difference_update")]
+            ctx.ob("R1", st, "does not take names out of the context again", not rem, key=f"binder-removes-names|{construct}", where=loc(rem[0]) if rem else loc(fn), detail=f"`{short(rem[0])}`" if rem else None)
         missing = sorted(fields - got)
         ctx.ob("R1", st, f"the registered names are derived from the fields {sorted(fields)}", not missing, key=f"field-not-registered|{construct}|{','.join(missing)}", where=loc(fn), detail=f"not flowing into a context update: {missing}" if missing else None)
         if descend:
@@ -336,4 +347,5 @@ META = {
     "with CPython for every program is not decided.",
     "note": "Decides the listed structural clauses, not the behaviour. Binder list = the property's list intersected "
     "with the node kinds of the running interpreter's ast module.",
+    "more": 'Also decided: no binding construct takes names out of the context again (only `del` does); an `except ... as n` target may be registered by visit_Try/TryStar or by visit_ExceptHandler.',
 }
